@@ -180,6 +180,14 @@ def _judge_c04(w, st, pre, post, res, val):
                         early = w.grp.get(y, y) != w.grp.get(x, x)
                         sig = "handles-follow:copy-taken-before-first-statepoint-access" if early else "handles-follow:" + op
                         out.append((sig, "copy %s of handle %s does not follow the re-key: %s vs %s" % (y, x, dy, dx)))
+            # what the session remembers about the new id (a handle opened by id would be built from it)
+            try:
+                from signac.job import Job as _Job
+                remembered = _Job(project=job.project, id_=job.id)._cached_statepoint
+            except Exception:  # noqa
+                remembered = None
+            if remembered is not None and core.my_id(dict(remembered)) != job.id:
+                out.append(("session-cache-entry-wrong:" + op, "after %s the session's cache maps the new id %s to a state point hashing elsewhere: %r" % (op, job.id[:6], dict(remembered))))
             dx = _handle_desc(job, w.is_last)
             if not (isinstance(dx["sp"], dict) and core.my_id(dx["sp"]) == job.id and dx["csp"] == dx["sp"] and dx["path"].endswith(job.id)
                     and dx.get("docpath", dx["path"]) == dx["path"]):
